@@ -1,3 +1,157 @@
-/- Property theorems for C05 (stub: not built yet). -/
+/-
+C05  Reduction feeds regressors exactly the lagged windows, never the future.
+Property theorems about SkVerif/Model/Reduce.lean against SkVerif/Spec/Reduce.lean.
+Only theorems + non-vacuity examples here; lemmas are in SkVerif/Lemmas/Reduce*.lean.
+
+Conventions: `V : Vals α` are the three value operations of the code (padding zero, NaN, NaN/inf test),
+`R : Regressor α` is an arbitrary regressor (any function from training data to a predictor),
+`d : α` is an arbitrary default: every statement holds for every `d`, i.e. no position outside the
+data is ever read.  `zf = ofLists d y X` is the series as a function (variable 0 = y).
+-/
+import SkVerif.Model.Reduce
+import SkVerif.Spec.Reduce
+import SkVerif.Lemmas.ReduceSwt
+import SkVerif.Lemmas.ReducePredict
+import SkVerif.Lemmas.ReduceRec
+import SkVerif.Lemmas.ReduceFit
+import SkVerif.Lemmas.ReduceRun
 namespace SkVerif.C05
-end SkVerif.C05
+open SkVerif SkVerif.Reduce SkVerif.Spec.Reduce
+
+variable {α : Type}
+
+/-- the last `wl` observations of `y` hold no NaN/inf (otherwise the code forecasts NaN) -/
+abbrev FiniteLastWindow (V : Vals α) (y : List α) (wl : Nat) : Prop :=
+  ∀ v ∈ y.drop (y.length - wl), V.bad v = false
+
+/-- **Training rows and targets.**  The sliding-window transform returns, for every start position
+`r = 0 … n - wl - hmax`, the row `z[r .. r+wl)` (per variable; flattened variable-major for a
+tabular regressor) and for each requested step `h` the target `y[r + wl + h - 1]`. -/
+theorem swt_rows_eq_spec (V : Vals α) (d : α) (y : List α) (X : Option (List (List α))) (nc wl : Nat)
+    (fh : List Int) (hm : Int) (sci : Scitype) (hv : ValidFit y X nc wl fh hm) :
+    swt V y (.int wl) fh X sci = .ok
+      (trainTargets (ofLists d y X) y.length wl hm.toNat (fh.map Int.toNat),
+       trainRows (ofLists d y X) y.length (nc + 1) wl hm.toNat (sci == .tabular)) :=
+  Lem.Reduce.swt_ok V d y X nc wl fh sci hm hv.rect hv.wl_pos hv.fh_pos
+    (Lem.Reduce.le_last_of_sorted fh hm hv.fh_sorted hv.fh_last) hv.fh_last hv.long_enough
+
+/-- **All full windows, each once.**  There are exactly `n - wl - hmax + 1 ≥ 1` training rows and
+target rows, and row number `r` is the window that starts at position `r` (so every start position
+`0 … n - wl - hmax` occurs exactly once, in time order). -/
+theorem swt_row_count (V : Vals α) (d : α) (y : List α) (X : Option (List (List α))) (nc wl : Nat)
+    (fh : List Int) (hm : Int) (sci : Scitype) (hv : ValidFit y X nc wl fh hm)
+    (yt : List (List α)) (Xt : List (Inst α)) (h : swt V y (.int wl) fh X sci = .ok (yt, Xt)) :
+    Xt.length = y.length - wl - hm.toNat + 1 ∧ yt.length = y.length - wl - hm.toNat + 1 ∧
+    ∀ r, r < y.length - wl - hm.toNat + 1 →
+      Xt[r]? = some (present (sci == .tabular) (window (ofLists d y X) (nc + 1) wl r)) ∧
+      yt[r]? = some (fh.map fun h => target (ofLists d y X) wl r h.toNat) := by
+  rw [swt_rows_eq_spec V d y X nc wl fh hm sci hv] at h
+  injection h with h
+  injection h with h1 h2
+  subst h1; subst h2
+  have hl := hv.long_enough
+  have hR : nRows y.length wl hm.toNat = y.length - wl - hm.toNat + 1 := by unfold nRows; omega
+  refine ⟨by simp [trainRows, hR], by simp [trainTargets, hR], ?_⟩
+  intro r hr
+  simp [trainRows, trainTargets, hR, hr]
+
+/-- **No row contains its own target or any later value.**  Row `r` is a function of the observations
+at positions `< r + wl` only: two series that agree before position `r + wl` produce the same row `r`,
+whatever they hold from `r + wl` on — while every target of row `r` sits at a position `≥ r + wl`
+(`target zf wl r h = zf (r + wl + h - 1) 0` with `h ≥ 1`, see `swt_row_count`). -/
+theorem swt_no_future (V : Vals α) (d : α) (y y' : List α) (X X' : Option (List (List α))) (nc wl : Nat)
+    (fh : List Int) (hm : Int) (sci : Scitype) (hv : ValidFit y X nc wl fh hm) (hv' : ValidFit y' X' nc wl fh hm)
+    (hn : y.length = y'.length) (r : Nat)
+    (hagree : ∀ t v, t < r + wl → ofLists d y X t v = ofLists d y' X' t v)
+    (yt yt' : List (List α)) (Xt Xt' : List (Inst α))
+    (h : swt V y (.int wl) fh X sci = .ok (yt, Xt)) (h' : swt V y' (.int wl) fh X' sci = .ok (yt', Xt')) :
+    Xt[r]? = Xt'[r]? ∧
+    ∀ h ∈ fh, r + wl ≤ r + wl + h.toNat - 1 := by
+  rw [swt_rows_eq_spec V d y X nc wl fh hm sci hv] at h
+  rw [swt_rows_eq_spec V d y' X' nc wl fh hm sci hv'] at h'
+  injection h with h; injection h with _ h2
+  injection h' with h'; injection h' with _ h2'
+  subst h2; subst h2'
+  constructor
+  · have hwin : present (sci == .tabular) (window (ofLists d y X) (nc + 1) wl r) =
+        present (sci == .tabular) (window (ofLists d y' X') (nc + 1) wl r) := by
+      congr 1
+      unfold window
+      apply List.map_congr_left
+      intro v _
+      apply List.map_congr_left
+      intro k hk
+      have := List.mem_range.mp hk
+      exact hagree _ _ (by omega)
+    by_cases hr : r < nRows y'.length wl hm.toNat
+    · simp [trainRows, hn, hr, hwin]
+    · simp [trainRows, hn, hr]
+  · intro h hh
+    have := hv.fh_pos h hh
+    omega
+
+/-- **No padding leaks.**  The cube `Zt` is pre-filled with zeros; nothing of that padding survives
+the slice: the result does not depend on what the padding value (or any other value operation) is. -/
+theorem swt_no_padding_leak (V V' : Vals α) (y : List α) (X : Option (List (List α))) (nc wl : Nat)
+    (fh : List Int) (hm : Int) (sci : Scitype) (hv : ValidFit y X nc wl fh hm) :
+    swt V y (.int wl) fh X sci = swt V' y (.int wl) fh X sci := by
+  rw [swt_rows_eq_spec V V.zero y X nc wl fh hm sci hv, swt_rows_eq_spec V' V.zero y X nc wl fh hm sci hv]
+
+/-- **Too short a series is rejected** (ValueError) instead of being padded: when not even one full
+window has its furthest target inside the series. -/
+theorem swt_rejects_short_series (V : Vals α) (y : List α) (X : Option (List (List α))) (nc wl : Nat)
+    (fh : List Int) (hm : Int) (sci : Scitype) (hr : Rect y X nc) (hwl : 1 ≤ wl) (hpos : ∀ h ∈ fh, 1 ≤ h)
+    (hlast : fh.getLast? = some hm) (hshort : y.length < wl + hm.toNat) :
+    swt V y (.int wl) fh X sci = .error .value :=
+  Lem.Reduce.swt_short V y X nc wl fh sci hm hr hwl hpos hlast hshort
+
+/-- **Fit-time and predict-time layout agree.**  The instance that the direct and multioutput
+strategies build from `_get_last_window` (`X_pred[:,0,:] = y_last; X_pred[:,1:,:] = X_last.T`, then the
+tabular reshape) is the specification's window at position `n - wl` presented exactly like a training
+row (`trainRows` maps the same `present ∘ window` over the start positions). -/
+theorem tabular_layout_consistent (V : Vals α) (d : α) (sci : Scitype) (wl : Nat) (t0 : Int) (y : List α)
+    (X : Option (List (List α))) (nc : Nat) (hr : Rect y X nc) (hwl : 1 ≤ wl) (hlen : wl ≤ y.length) :
+    predInst V sci (lastWindow t0 (t0 + y.length - 1) wl y X).1 (lastWindow t0 (t0 + y.length - 1) wl y X).2 nc =
+      present (sci == .tabular) (window (ofLists d y X) (nc + 1) wl (y.length - wl)) := by
+  rw [Lem.Reduce.lastWindow_eq t0 wl y X nc hr hlen hwl]
+  exact Lem.Reduce.predInst_eq V d sci wl y X nc hr hlen
+
+section strategies
+open Lem.Reduce
+
+/-- **Direct strategy, end to end.**  `make_reduction(R, "direct", wl).fit(y, X, fh).predict()`:
+one regressor clone per requested step `h` is fitted on the lagged windows with the targets
+`y[r + wl + h - 1]`; at prediction time every clone is fed the last `wl` observed values (laid out like
+a training row) and the forecast returned for step `h`, labelled `cutoff + h`, is the output of the clone
+trained on the step-`h` targets — for contiguous and gapped horizons alike. -/
+theorem direct_predict_uses_last_window (V : Vals α) (R : Regressor α) (d : α) (sci : Scitype) (wl : Nat)
+    (t0 : Int) (y : List α) (X Xp : Option (List (List α))) (nc : Nat) (fh : List Int) (hm : Int)
+    (fhPred : Option (List Int)) (hv : ValidFit y X nc wl fh hm) (hp : FiniteLastWindow V y wl)
+    (hfp : fhPred = none ∨ fhPred = some fh) :
+    let zf := ofLists d y X
+    let rows := trainRows zf y.length (nc + 1) wl hm.toNat (sci == .tabular)
+    let tf := fun (h : Int) => targetsFor zf y.length wl hm.toNat h.toNat
+    let x := lastInst zf y.length (nc + 1) wl (sci == .tabular)
+    run V R .direct sci (.int wl) t0 y X (some fh) .no fhPred Xp =
+      (fh.map (fun h => Call.fit rows (.vec (tf h))) ++
+         List.zipWith (fun i h => Call.predict i x [R.train rows (tf h) x]) (List.range fh.length) fh,
+       .ok (fh.map fun h => (t0 + y.length - 1 + h, R.train rows (tf h) x))) := by
+  intro zf rows tf x
+  have hm1 : 1 ≤ hm := hv.fh_pos hm (List.mem_of_getLast? hv.fh_last)
+  have hne : fh ≠ [] := by intro h; have := hv.fh_last; simp [h] at this
+  have hy : y ≠ [] := by
+    intro h; have h1 := hv.long_enough; have h2 := hv.wl_pos; rw [h] at h1; simp at h1; omega
+  have hck := checkFh_sorted fh hv.fh_sorted hne
+  have hle := le_last_of_sorted fh hm hv.fh_sorted hv.fh_last
+  have hset : setFh (requiredFh .direct) false none (some fh) = .ok (some fh) := by
+    simp [setFh, requiredFh, hck, bind, Except.bind]
+  have hjobs := fitJobs_direct V d y X nc wl (some wl) fh sci hm hv.rect hv.wl_pos hv.fh_pos hle hv.fh_last hv.long_enough
+  have hfit := fit_ok V R .direct sci wl t0 y X (some fh) (some fh) _ hy hv.wl_pos hset hjobs
+  have hpred := predict_direct V d sci wl t0 y X Xp nc fh fhPred
+    (numbered 0 ((fh.map fun h => (rows, Target.vec (tf h))).map (trainJob R))) (fh.map fun h => (rows, Target.vec (tf h))).length
+    hv.rect hv.wl_pos (by have := hv.long_enough; omega) hv.fh_pos hck hfp hp
+  simp only [fittedFc, rows, tf, zf] at hpred
+  simp only [run, hfit, hpred, rows, tf, zf, x]
+  rw [List.map_map, numbered_map_snd, List.map_map, List.map_map, numbered_map, zipWith_map_self]
+  simp [Function.comp_def, trainJob, applyEst]
+end strategies
